@@ -390,7 +390,6 @@ def link_configs(tier):
             if _is_multi(ka) and tier != 'thorough' and ka == 'c:gl' and fl not in ((True, True, True), (True, False, False)):
                 continue
             for un in ['a', 'b']:
-                op = 'link:' + ''.join(n for n, f in zip(('flow', 'phase', 'TP'), fl) if f).replace('flowphase', 'flow+phase').replace('phaseTP', 'phase+TP').replace('flowTP', 'flow+TP') if any(fl) else 'link:none'
                 op = 'link:' + ('+'.join(n for n, f in zip(('flow', 'phase', 'TP'), fl) if f) or 'none')
                 out.append({'name': f'a={ka};b={kb};op={op};unlink={un}', 'a': ka, 'b': kb, 'op': 'link', 'flags': list(fl), 'unlink': un})
     proxied = ['l', 'g', 'm:gl', 'c:gl'] + (['s', 'm:l', 'm:Ll', 'c:Ll', 'm:gls'] if tier == 'thorough' else [])
@@ -603,6 +602,9 @@ def stream_configs(tier):
             for cf in ['given', 'none', 'added-later']:
                 if tier != 'thorough' and (ID is None or cf == 'added-later') and k not in ('l', 'm:gl'): continue
                 out.append({'name': f'kind={k};ID={ID};cf={cf}', 'kind': k, 'ID': ID, 'cf': cf})
+    for k in ['l', 'm:gl'] + (['g', 'm:Ll', 'm:l'] if tier == 'thorough' else []):
+        # flows given positionally (`flow=` array) instead of by keyword
+        out.append({'name': f'kind={k};ID=feed;cf=given;args=flow', 'kind': k, 'ID': 'feed', 'cf': 'given', 'args': 'flow'})
     return out
 
 
@@ -631,13 +633,20 @@ def stream_init_pickle(w, cfg):
         for ph in phases:
             given[ph, 'Water'] = w.real(f'f.{ph}.Water', lo=0., lo_strict=True)
             given[ph, 'Methanol'] = w.real(f'f.{ph}.Methanol', lo=0., lo_strict=True)
-        s = tmo.MultiStream(cfg['ID'], phases=phases, **kw,
-                            **{ph: [('Water', given[ph, 'Water']), ('Methanol', given[ph, 'Methanol'])] for ph in phases})
+        if cfg.get('args') == 'flow':
+            s = tmo.MultiStream(cfg['ID'], phases=phases, **kw,
+                                flow=[[given[ph, 'Water'], 0., given[ph, 'Methanol']] for ph in tmo._phase.phase_tuple(phases)])
+        else:
+            s = tmo.MultiStream(cfg['ID'], phases=phases, **kw,
+                                **{ph: [('Water', given[ph, 'Water']), ('Methanol', given[ph, 'Methanol'])] for ph in phases})
     else:
         ph0 = phases[-1] if kind.startswith('c:') else phases
         given[ph0, 'Water'] = w.real('f.Water', lo=0., lo_strict=True)
         given[ph0, 'Methanol'] = w.real('f.Methanol', lo=0., lo_strict=True)
-        s = tmo.Stream(cfg['ID'], phase=ph0, Water=given[ph0, 'Water'], Methanol=given[ph0, 'Methanol'], **kw)
+        if cfg.get('args') == 'flow':
+            s = tmo.Stream(cfg['ID'], phase=ph0, flow=[given[ph0, 'Water'], 0., given[ph0, 'Methanol']], **kw)
+        else:
+            s = tmo.Stream(cfg['ID'], phase=ph0, Water=given[ph0, 'Water'], Methanol=given[ph0, 'Methanol'], **kw)
         if kind.startswith('c:'):
             s.phases = phases
     if cfg['cf'] == 'added-later':
@@ -713,6 +722,31 @@ def _chemical_state(c):
             f = getattr(c, name)
             vals[name, ph] = f(ph, T, P) if name != 'Cn' else f(ph, T)
     return vals
+
+
+def _all_slots(obj):
+    out = []
+    for c in type(obj).__mro__:
+        sl = c.__dict__.get('__slots__', ())
+        out.extend([sl] if isinstance(sl, str) else sl)
+    return out
+
+
+def _field_diff(new, old):
+    """Slots (and __dict__ entries) of `old` that `new` does not carry as the very same object."""
+    bad = []
+    for f in _all_slots(old):
+        if hasattr(old, f):
+            if not hasattr(new, f) or getattr(new, f) is not getattr(old, f): bad.append(f)
+        elif getattr(new, f, None) is not None:      # an unset field may come back as None (read with a None default), nothing else
+            bad.append(f)
+    for f, v in getattr(old, '__dict__', {}).items():
+        if getattr(new, '__dict__', {}).get(f, bad) is not v: bad.append(f)
+    return bad
+
+
+def _same_fields(new, old):
+    return _field_diff(new, old) == []
 
 
 def _state_eq(a, b):
@@ -843,12 +877,8 @@ def pickle_parts(w, cfg):
         for x in xs:
             rv = x.__reduce__()
             r1 = rv[0](*rv[1])
-            if name == 'Chemical':
-                fields = x.__slots__
-                w.ensure('recipe hands over every field', all(getattr(r1, f, None) is getattr(x, f, None) for f in fields))
-            elif name == 'Thermo':
-                fields = ('chemicals', 'mixture', 'Gamma', 'Phi', 'PCF')
-                w.ensure('recipe hands over every field', all(getattr(r1, f) is getattr(x, f) for f in fields))
+            if name in ('Chemical', 'Thermo'):
+                w.ensure('recipe hands over every field', _same_fields(r1, x), missing=_field_diff(r1, x))
             else:
                 w.ensure('recipe hands over every field', w.And(r1.IDs == x.IDs, all(a is b for a, b in zip(r1.tuple, x.tuple))))
             w.ensure('recipe gives the same class', type(r1) is type(x))
